@@ -2,6 +2,9 @@
 Proof: lean/Props/C11.lean.  Tie: generated abstract specs -> independent XML renderer (harness/oracle/refdap4.py)
 -> pydap.parsers.dmr.dmr_to_dataset -> canonical dump in walk order, vs the Lean model on ElementTree's tree of the
 same text; get_atomic_attr on single attribute elements; the server's DMR for generated datasets with groups.
+The spec itself goes to Lean as well: `renderRoot spec` must be ElementTree's tree of the rendered text (modulo the
+indentation text of container elements) and `expectVars spec` (right-hand side of C11_parse) must be what
+dmr_to_dataset returns, variable by variable in document order.  The server: `renderServer` vs ET's tree of dmr(ds).
 Oracle: the abstract spec itself (lookup by group path, type, shape, fully qualified dims, maps, attributes)."""
 import re
 import warnings
@@ -14,38 +17,14 @@ from oracle import refdap4 as R
 
 LEVEL = "proof"
 
-BYTE_KEY = "C11.byte_attr_leading_zero"
-_LEADING_ZERO = re.compile(r"^\s*[+-]?0[0-9_]*[1-9]")
-
-
-def in_byte_class(attrs):
-    """finding class: an attribute of type Byte with a value written with leading zeros (not a Python literal)"""
-    return any(a["type"] == "Byte" and any(_LEADING_ZERO.match(t) for _, t in a["values"]) for a in attrs)
-
-
-def spec_attrs(spec):
-    out = []
-
-    def rec(g):
-        for it in g["items"]:
-            if it["k"] == "attr":
-                out.append(it)
-            elif it["k"] == "var":
-                out.extend(it["attrs"])
-            elif it["k"] == "group":
-                rec(it)
-    rec(spec)
-    return out
-
-
-BYTE_WITNESS = {"k": "attr", "name": "flag", "type": "Byte", "values": [["text", "007"]]}
+BYTE_WITNESS = {"k": "attr", "name": "flag", "type": "Byte", "values": [["text", "007"]]}   # former finding (fix 78a1746)
 
 
 def byte_witness_fails(fns):
     from xml.etree import ElementTree as ET
     try:
         _, val = fns[1](ET.fromstring("\n".join(R._attr_xml(BYTE_WITNESS, ""))))
-        return val != 7
+        return not (type(val) is int and val == 7)
     except BaseException:
         return True
 
@@ -80,8 +59,7 @@ def judge_spec(ctx, fns, spec, text, ds, dump, cls_of=None):
     case = {"kind": "spec", "spec": spec}
     size = len(text)
     if ds is None:
-        ctx.oracle_fail("DMR of a valid spec does not parse", case, dump, "a dataset", size=size,
-                        cls=BYTE_KEY if in_byte_class(spec_attrs(spec)) and dump == "(err SyntaxError)" else None)
+        ctx.oracle_fail("DMR of a valid spec does not parse", case, dump, "a dataset", size=size)
         return
     declared = list(R.walk_vars(spec))
     got_n = len(list(walk(ds, BaseType)))
@@ -137,12 +115,21 @@ def spec_tags(spec):
 
 def check_specs(ctx, fns, n, label, **kw):
     rng = ctx.rng(label)
-    cases = []
+    cases, tree_cases, vars_cases, find_cases = [], [], [], []
     for i in range(n):
         spec = G.gen_spec(rng, **kw)
         text = R.render_dmr(spec, xml_decl=rng.random() < 0.5)
         ds, dump = parse_dump(fns, text)
-        cases.append(("dmr-walk " + G.xnode_sexp(G.et_of_dmr(text)), dump, {"spec": spec}))
+        et = G.et_of_dmr(text)
+        cases.append(("dmr-walk " + G.xnode_sexp(et), dump, {"spec": spec}))
+        sx = G.spec_sexp(spec)
+        # the Lean rendering of the spec is ET's tree of the independently rendered text
+        tree_cases.append(("dmr-spec-tree %s %s" % (G.hexs(spec["name"]), sx), G.norm_tree_sexp(et), {"spec": spec}))
+        # what the spec declares (right-hand side of C11_parse) is what pydap returns, in document order
+        vars_cases.append(("dmr-spec-vars " + sx, doc_order_dump(fns, spec, ds, dump), {"spec": spec}))
+        find_cases.append(("dmr-find " + G.xnode_sexp(et), find_dump(fns, spec, ds, dump), {"spec": spec}))
+        for t in G.layout_tags(spec):
+            ctx.tags[label + ":" + t] += 1
         judge_spec(ctx, fns, spec, text, ds, dump)
         nvars = len(list(R.walk_vars(spec)))
         for t in spec_tags(spec):
@@ -150,6 +137,46 @@ def check_specs(ctx, fns, n, label, **kw):
         ctx.count(("spec", text), nvars > 0 and (R.max_depth(spec) > 0 or nvars > 1), tag=label,
                   sample={"dmr": text[:400]} if i < 2 else None)
     ctx.correspond("dmr_to_dataset (walk dump)", cases)
+    ctx.correspond("spec rendering = ElementTree's tree (renderRoot)", tree_cases)
+    ctx.correspond("declared variables = dmr_to_dataset (expectVars, C11_parse)", vars_cases)
+    ctx.correspond("dataset[group path/name] (findVar, C11_addressable)", find_cases)
+
+
+def find_dump(fns, spec, ds, dump):
+    """dataset[<group path>/<name>] for every declared variable in document order: the key of what comes back"""
+    if ds is None:
+        return dump
+    BaseType = fns[3]
+    out = "(ok"
+    for p, v in R.walk_vars(spec):
+        key = R.fqn(p, v["name"]) if p else v["name"]
+        try:
+            with warnings.catch_warnings():
+                warnings.simplefilter("ignore")
+                got = ds[key]
+            found = G.hexs(G.var_key(got)) if isinstance(got, BaseType) else "none"
+        except Exception:
+            found = "none"
+        out += " (%s %s)" % (G.hexs(key), found)
+    return out + ")"
+
+
+def doc_order_dump(fns, spec, ds, dump):
+    """the parsed variables in the order the document declares them (looked up by key)"""
+    if ds is None:
+        return dump
+    walk, BaseType = fns[2], fns[3]
+    by_key = {}
+    for v in walk(ds, BaseType):
+        by_key.setdefault(G.var_key(v), []).append(v)
+    out = "(ok"
+    for p, v in R.walk_vars(spec):
+        key = R.fqn(p, v["name"]) if p else v["name"]
+        got = by_key.get(key, [])
+        out += " " + (G.rec_str(got[0]) if len(got) == 1 else "(%s x%d)" % (G.hexs(key), len(got)))
+    if sum(len(x) for x in by_key.values()) != len(list(R.walk_vars(spec))):
+        out += " (extra)"
+    return out + ")"
 
 
 def check_attrs(ctx, fns, n):
@@ -181,10 +208,12 @@ def check_attrs(ctx, fns, n):
             exp = G.expected_attr(a)
         if isinstance(val, BaseException) or not G.attr_equal(val, exp):
             ctx.oracle_fail("attribute value differs from its declared type/values", {"kind": "attr", "attr": a},
-                            impl, repr(exp), size=len(xml),
-                            cls=BYTE_KEY if in_byte_class([a]) and impl == "(err SyntaxError)" else None)
+                            impl, repr(exp), size=len(xml))
         ctx.count(("attr", xml), True, tag="attr:%s:%d" % (a["type"], len(a["values"])))
     ctx.correspond("get_atomic_attr", cases)
+    if byte_witness_fails(fns):
+        ctx.oracle_fail("Byte attribute with leading zeros is not the integer it denotes", {"kind": "attr", "attr": BYTE_WITNESS},
+                        "error or other value", "7", size=1)
 
 
 # ---------------------------------------------------------------------------------------------
@@ -216,6 +245,7 @@ def check_server(ctx, fns, n):
         tag = first.strip()[1:].split(" ")[0]
         tag_cases.append(("dmr-tag %s %s" % (dt.kind, G.hexs(str(dt))), G.hexs(tag), {"dtype": name}))
     ctx.correspond("responses/dmr.py element tag", tag_cases)
+    srv_cases = []
     for i in range(n):
         # the server renders shared dimensions only: named Dims, all numeric types
         spec = G.gen_spec(rng, mixed=False, attrs=False, max_depth=rng.choice([0, 1, 2, 3]))
@@ -240,6 +270,8 @@ def check_server(ctx, fns, n):
             ctx.oracle_fail("the server's DMR does not parse", dict(case, dmr=text), err_class(e), "a dataset",
                             size=len(text))
             continue
+        srv_cases.append(("dmr-srv-tree %s" % srv_sexp(ds), G.norm_tree_sexp(G.et_of_dmr(text), top=False),
+                          {"spec": spec}))
         declared = list(R.walk_vars(spec))
         ok = True
         if len(list(walk(back, BaseType))) != len(declared):
@@ -260,6 +292,30 @@ def check_server(ctx, fns, n):
                                 [str(dt), list(var.shape)], [str(exp), list(arrays[fq].shape)], size=len(text))
         ctx.count(("server", text), len(declared) > 0, tag="server:depth=%d" % R.max_depth(spec),
                   sample=None)
+    ctx.correspond("responses/dmr.py dmr() = renderServer (element tree)", srv_cases)
+
+
+def srv_sexp(ds):
+    """the served dataset object as the Lean server model sees it: name, dimensions, children() in order;
+    a variable = name, numpy kind, str(dtype), var.dims with the extents of its data"""
+    from pydap.model import BaseType, GroupType
+
+    def dims_of(d):
+        return " ".join("(%s %d)" % (G.hexs(k), int(v)) for k, v in (d or {}).items())
+
+    def kids(c):
+        out = []
+        for ch in c.children():
+            if isinstance(ch, GroupType):
+                out.append("(group %s (%s) (%s))" % (G.hexs(ch.name), dims_of(ch.attributes.get("dimensions", {})), kids(ch)))
+            elif isinstance(ch, BaseType):
+                dt = np.dtype(ch.dtype)
+                shape = tuple(ch.shape)
+                out.append("(var %s %s %s (%s))" % (G.hexs(ch.name), dt.kind, G.hexs(str(dt)),
+                           " ".join("(%s %d)" % (G.hexs(d), shape[i] if i < len(shape) else -1)
+                                    for i, d in enumerate(ch.dims))))
+        return " ".join(out)
+    return "%s (%s) (%s)" % (G.hexs(ds.name), dims_of(getattr(ds, "dimensions", {})), kids(ds))
 
 
 def run(ctx):
@@ -274,8 +330,7 @@ def run(ctx):
     ctx.proof_phase()
     fns = load()
     explore(ctx, fns, ctx.tier)
-    return ctx.finish(search=lambda c: explore(c, fns, "thorough"),
-                      witnesses={BYTE_KEY: lambda: byte_witness_fails(fns)})
+    return ctx.finish(search=lambda c: explore(c, fns, "thorough"))
 
 
 def explore(ctx, fns, tier):
